@@ -982,6 +982,15 @@ pub fn final_checks(world: &WorldRef, hist: &HistoryRef) -> Value {
                             "other"
                         };
                         deposed_reads.insert(op.id, cause != "other");
+                        // C27: a learner's acknowledgement must not count toward a lease / read quorum
+                        if fresh_voters == 0 && late_voters == 0 && fresh_learners >= 1 {
+                            o.violate(
+                                "C27",
+                                "learner_ack_counted_for_read_or_lease_quorum",
+                                json!({"node": op.node, "node_term": node_term, "newer_term": nt, "newer_leader": nl, "fresh_learner_acks": fresh_learners,
+                                       "read_kind": if is_lease_eff { "lease" } else { "linearizable" }, "read_invoke_ms": op.invoke_ms}),
+                            );
+                        }
                         let (p, k) = if is_lease_eff { ("C12", "lease_read_while_deposed") } else { ("C11", "linearizable_read_by_deposed_leader") };
                         o.violate(
                             p,
